@@ -44,9 +44,17 @@ package ring
 //@ # ---- partition ring shuffle shard (C12, "the partition ring gives the same guarantees over active partitions") ----
 //@ # member(p, lb, until): a partition may be part of a shard: never PENDING; ACTIVE, or (with look-back) changed inside the window
 //@ pred shardMember(p PartitionDesc, lookbackPeriod int64, until int64) = p.State != PartitionPending && (p.State == PartitionActive || (lookbackPeriod > 0 && p.StateTimestamp >= until))
-//@ assume func PartitionRingDesc.WithPartitions
-//@   modifies nothing
-//@ assume func NewPartitionRingWithOptions
+//@ # the sub-descriptor: exactly the chosen partitions that exist, unchanged, and exactly the owners of chosen partitions
+//@ func PartitionRingDesc.WithPartitions
+//@   property C12
+//@   ensures  partitions: forall pid int32 :: in(pid, result.Partitions) <==> (in(pid, partitions) && in(pid, m.Partitions))
+//@   ensures  unchanged: forall pid int32 :: in(pid, result.Partitions) ==> result.Partitions[pid] == m.Partitions[pid]
+//@   ensures  owners: forall o string :: in(o, result.Owners) <==> (in(o, m.Owners) && in(m.Owners[o].OwnedPartition, partitions))
+//@   ensures  owners_unchanged: forall o string :: in(o, result.Owners) ==> result.Owners[o] == m.Owners[o]
+//@   loop 0 invariant !isnil(newPartitions) && (forall pid int32 :: in(pid, newPartitions) <==> ($visited[pid] && in(pid, partitions) && in(pid, m.Partitions)))
+//@   loop 0 invariant forall pid int32 :: in(pid, newPartitions) ==> newPartitions[pid] == m.Partitions[pid]
+//@   loop 1 invariant !isnil(newOwners) && same(newPartitions, newPartitions) && (forall o string :: in(o, newOwners) <==> ($visited[o] && in(o, m.Owners) && in(m.Owners[o].OwnedPartition, partitions)))
+//@   loop 1 invariant forall o string :: in(o, newOwners) ==> newOwners[o] == m.Owners[o]
 //@   modifies nothing
 //@ func PartitionRing.shuffleShard
 //@   property C12
@@ -55,6 +63,12 @@ package ring
 //@   # a request for no particular size, or for at least as many partitions as are registered, is a request for the whole
 //@   # ring: the walk must be allowed to visit every partition (INACTIVE ones inside the look-back window included)
 //@   loop 0 init assert wholering: size == ((size0 <= 0 || size0 >= len(r.desc.Partitions)) ? len(r.desc.Partitions) : size0)
+//@   # the same over the ring that is RETURNED, whichever path returns it (the sub-descriptor holds exactly the chosen
+//@   # partitions, unchanged; the client built from it describes that sub-descriptor)
+//@   ensures  returned_members: r1 == nil ==> r0 != nil && prLinked(r0) && (forall pid int32 :: in(pid, r0.desc.Partitions) ==>
+//@              in(pid, r.desc.Partitions) && r0.desc.Partitions[pid] == r.desc.Partitions[pid] &&
+//@              shardMember(r.desc.Partitions[pid], lookbackPeriod, unix(mktime(ns(now) - lookbackPeriod))))
+//@   ensures  returned_active_only: r1 == nil && lookbackPeriod == 0 ==> (forall pid int32 :: in(pid, r0.desc.Partitions) ==> r0.desc.Partitions[pid].State == PartitionActive)
 //@   at before@ring.PartitionRingDesc.WithPartitions: assert members: forall pid int32 :: in(pid, result) ==> in(pid, r.desc.Partitions) && shardMember(r.desc.Partitions[pid], lookbackPeriod, lookbackUntil)
 //@   at before@ring.PartitionRingDesc.WithPartitions: assert nolookback: lookbackPeriod == 0 ==> (forall pid int32 :: in(pid, result) ==> r.desc.Partitions[pid].State == PartitionActive)
 //@   loop 0 invariant !isnil(result) && !isnil(exclude) && same(r, old(r)) && tokensCount == len(r.ringTokens) && (lookbackPeriod > 0 ==> lookbackUntil == unix(mktime(ns(now) - lookbackPeriod)))
